@@ -5,7 +5,7 @@ import dataclasses
 import types
 from typing import Any, Iterable, Union, get_type_hints, TYPE_CHECKING
 from dataclasses import dataclass, field
-from sigma.conditions import ConditionOR
+from sigma.conditions import ConditionAND, ConditionOR
 from sigma.correlations import SigmaCorrelationCondition, SigmaCorrelationRule
 from sigma.rule import SigmaRule, SigmaDetection, SigmaDetectionItem
 from sigma.exceptions import (
@@ -13,6 +13,7 @@ from sigma.exceptions import (
     SigmaTransformationError,
 )
 from sigma.types import (
+    SigmaExpansion,
     SigmaString,
     SigmaType,
     SigmaFieldReference,
@@ -370,7 +371,12 @@ class ValueTransformation(DetectionItemTransformation):
                 if res is None:  # no value returned: drop value
                     results.append(value)
                 elif isinstance(res, Iterable) and not isinstance(res, SigmaType):
-                    results.extend(res)
+                    res = list(res)
+                    if len(res) > 1 and detection_item.value_linking is ConditionAND:
+                        # the resulting values are alternatives for the one value that must match
+                        results.append(SigmaExpansion(res))
+                    else:
+                        results.extend(res)
                     modified = True
                 else:
                     results.append(res)
